@@ -876,7 +876,7 @@ def must_be_certified(run, obj, what):
 # workloads
 
 SHAPES = [(), (4,), (2, 3), (3, 1, 2), (1,)]
-RADII = ["bulk", "bulk", "near-boundary", "stressed"]
+RADII = ["bulk", "bulk", "near-boundary", "stressed", "near-origin"]
 
 
 def klein_by_class(rng, n, shape, cls):
@@ -884,6 +884,15 @@ def klein_by_class(rng, n, shape, cls):
         return rh.rand_ball(rng, n, shape, rmax=0.95)
     if cls == "near-boundary":
         return rh.rand_ball(rng, n, shape, rmax=1 - 1e-3, rmin=0.95)
+    if cls == "near-origin":
+        # Klein radius 1e-9 .. 1e-3 and the exact origin: with a representative in
+        # the lower nappe a closed form in 1 + t cancels there (seeded change
+        # C02-r8-1); the construction itself is perfectly conditioned
+        r = 10 ** rng.uniform(-9, -3, size=tuple(shape) + (1,))
+        k = rh.rand_sphere(rng, n, shape) * r
+        if rng.random() < 0.5:
+            k[(0,) * len(shape)] = 0.0
+        return k
     if cls == "stressed":
         r = 1 - 10 ** rng.uniform(-6, -3, size=tuple(shape) + (1,))
         return rh.rand_sphere(rng, n, shape) * r
@@ -926,7 +935,7 @@ def wl_origin(run, rng, idx):
     v = X[..., None, :].copy() if shape else X.copy()
     run.note_class("timelike_to", n, shape, rad, fo)
     T2 = timelike_to(v, force_oriented=fo)                   # P
-    if rad == "bulk":
+    if rad in ("bulk", "near-origin"):
         check_action(run, T2, rng, ("timelike_to",) + sig[1:], reps=1)
     if n >= 1 and rad == "bulk":
         # spacelike vectors
